@@ -10,8 +10,10 @@ def parseRange (s : String) : Option (Nat × Nat × Nat) :=
     return (a, b, c)
   | _ => none
 
-/-- the generated table (a Lean literal the kernel can evaluate; `Lemmas/TableFacts.lean` proves facts about it) -/
-def charRanges : Array (Nat × Nat × Nat) := Gen.charRangesList.toArray
+/-- the generated table (a Lean literal the kernel can evaluate; `Lemmas/TableFacts.lean` proves facts about it).
+    `irreducible`: the elaborator must not try to evaluate the ~2000-entry literal (e.g. its `size`) when it
+    unfolds `classBitsAux`; the kernel and the compiled driver are not affected by the attribute. -/
+@[irreducible] def charRanges : Array (Nat × Nat × Nat) := Gen.charRangesList.toArray
 
 /-- binary search in the generated range table -/
 def classBitsAux (cp : Nat) (lo hi : Nat) (fuel : Nat) : Nat :=
@@ -49,7 +51,7 @@ def parseCps (s : String) : List Char :=
   if s.isEmpty then [] else (s.splitOn ".").filterMap (fun p => p.toNat?.map Char.ofNat)
 
 /-- unicase folding table (generated), as an association array sorted by code point -/
-def foldTable : Array (Nat × List Char) :=
+@[irreducible] def foldTable : Array (Nat × List Char) :=
   (Gen.foldList.map (fun e => (e.1, e.2.map Char.ofNat))).toArray
 
 def foldLookupAux (cp lo hi fuel : Nat) : Option (List Char) :=
